@@ -397,7 +397,7 @@ PLANS["C05"] = {
         T("onetx", "general", (20, 400), ["InvOneTx"], args=["-txlog"]),
         T("kill", "-", (30, 600), ["InvCrash", "InvCrashAcks"], cmd="crash", args=["-workdir", "{work}"], chunk=10),
         # kills deep inside operations that rewrite thousands of keys (index build / drop, bulk update, collection drop)
-        T("kill-big", "-", (8, 80), ["InvCrash", "InvCrashAcks"], cmd="crash", args=["-workdir", "{work}", "-big"], chunk=2, heap="8g", seed_off=17),
+        T("kill-big", "-", (16, 120), ["InvCrash", "InvCrashAcks"], cmd="crash", args=["-workdir", "{work}", "-big"], chunk=2, heap="8g", seed_off=17),
         {"kind": "custom", "name": "durability", "fn": durability, "n": (2, 12)},
     ],
 }
